@@ -107,6 +107,21 @@ CLAIMED["C16"] = dict(
          "Finite values and column sets are direct observations on the returned tables, not theorems.",
     technique="Coq proof (induction over steps under an arbitrary fault sequence) + exact differential check with injected solver failures")
 
+CLAIMED["C14"] = dict(
+    text="Proof over an abstract registry state machine (18 operations: add/remove of nodes, links, patterns, curves, sources, "
+         "controls; end-node, pattern and curve reassignment): the invariant (unique names, every link's end nodes exist, every "
+         "pattern/curve/node/link reference names an existing object) holds after EVERY operation history; a refused operation leaves "
+         "the state unchanged; typed name lists partition the nodes, graph edges have existing ends, the links of a node are exactly "
+         "the links with that end. Tie decided inside coqc: after every operation of random histories executed through the public API "
+         "all observable views (name lists, typed lists and iterators, counts, get_links_for_node, to_graph, usage records) equal the "
+         "model's views exactly; redundant implementation views are cross-checked; a refused removal must not change anything.",
+    ref="DESIGN.md section 5 C14",
+    note="Trusted: Coq kernel (axiom-free); harness mapping operations to API calls and views to number lists. The model's views are "
+         "functions of ONE state, so their mutual consistency is by construction -- what the check establishes is that the implementation's "
+         "many redundant structures track that state (bounded by the generated histories). Not modelled: re-adding an existing name, junction "
+         "demand-pattern edits, describe().",
+    technique="Coq proof (invariant by induction over operation histories) + exact differential check of all views after every operation")
+
 NOT_YET = {
 }
 
